@@ -1558,6 +1558,15 @@ func resolveVarSeen(computed map[string]pr.RawTokens, token Token, seen []string
 	_, args := pa.ParseFunction(token)
 	// first arg is name, next args are default value
 	varNameToken, default_ := args[0], args[1:]
+	// ParseFunction drops the commas: take the default value from the raw
+	// arguments, where it is everything after the first comma
+	rawArgs := pa.RemoveWhitespace(fn.Arguments)
+	for i, arg := range rawArgs[1:] {
+		if pa.IsLiteral(arg, ",") {
+			default_ = rawArgs[i+2:]
+			break
+		}
+	}
 	variableName := varNameToken.(pa.Ident).Value
 
 	for _, s := range seen {
